@@ -336,8 +336,18 @@ impl<T> Default for Queue<T> {
 impl<T> Drop for Queue<T> {
     fn drop(&mut self) {
         while self.pop().is_some() {}
-        // release the stub
-        let _: Box<Node<T>> = unsafe { Box::from_raw(*self.tail.get()) };
+        // release the stub the way pop() retires it: the stub is the last popped
+        // node and its `Entry` handle may still be alive, so only the list's
+        // reference is dropped here and the node is freed by whoever is last
+        unsafe {
+            let tail = *self.tail.get();
+            // clear the link bit
+            (*tail).refs &= REF_COUNT_MASK;
+            (*tail).refs -= 1;
+            if (*tail).refs == 0 {
+                let _: Box<Node<T>> = Box::from_raw(tail);
+            }
+        }
     }
 }
 
